@@ -151,13 +151,15 @@ func report(eng *Engine, units []*Unit, start time.Time, workdir string, timeout
 			continue
 		}
 		violations++
-		rp := writeReplay(eng, failUnits[i], ob, prop)
+		var detail strings.Builder
+		rp := writeReplay(eng, failUnits[i], ob, prop, &detail, violations <= 8)
 		suffix := ""
 		if !rp.Confirmed {
 			suffix = " no-failing-input-found"
 		}
 		fmt.Printf("VIOLATION property=%s replay=%s%s\n", prop, rp.Path, suffix)
 		fmt.Printf("  obligation %s: %s (%s)\n", ob.Name, ob.Status, firstLines(ob.Output, 2))
+		fmt.Print(detail.String())
 	}
 	for _, k := range knownLines {
 		fmt.Printf("KNOWN-FINDING: %s\n", k)
@@ -231,15 +233,39 @@ type ReplayResult struct {
 	Confirmed bool
 }
 
-func writeReplay(eng *Engine, u *Unit, ob *Oblig, prop string) ReplayResult {
+func writeReplay(eng *Engine, u *Unit, ob *Oblig, prop string, detail *strings.Builder, doReplay bool) ReplayResult {
 	dir := filepath.Join(*flagReplayDir, prop)
 	os.MkdirAll(dir, 0755)
 	path := filepath.Join(dir, sanitizeFile.ReplaceAllString(ob.Name, "_")+".json")
 	rec := map[string]interface{}{
 		"property": prop, "obligation": ob.Name, "status": ob.Status, "solver": ob.Solver, "solver_output": ob.Output,
 		"smt_file": ob.File, "source": fmt.Sprintf("%s:%d", ob.Pos.Filename, ob.Pos.Line), "confirmed_on_real_code": false,
+		"contract": fmt.Sprintf("%s:%d", u.Contract.File, u.Contract.Line),
+	}
+	res := ReplayResult{Path: path}
+	if !*flagNoReplay && doReplay {
+		ro := eng.replayOblig(u, ob)
+		rec["confirmed_on_real_code"] = ro.Confirmed
+		rec["inputs"] = ro.Inputs
+		rec["observed"] = ro.Observed
+		rec["not_confirmed_reason"] = ro.Reason
+		rec["replay_test"] = ro.TestSrc
+		rec["replay_output"] = ro.Output
+		res.Confirmed = ro.Confirmed
+		if ro.Confirmed {
+			fmt.Fprintf(detail, "  replayed on real code: %s | inputs: %s\n", ro.Observed, trunc(strings.Join(ro.Inputs, "; "), 500))
+		} else {
+			fmt.Fprintf(detail, "  replay not confirmed: %s\n", ro.Reason)
+		}
 	}
 	data, _ := json.MarshalIndent(rec, "", " ")
 	os.WriteFile(path, data, 0644)
-	return ReplayResult{Path: path}
+	return res
+}
+
+func trunc(s string, n int) string {
+	if len(s) > n {
+		return s[:n] + "..."
+	}
+	return s
 }
